@@ -289,8 +289,8 @@ def ev(c, e):
         kws = []
         for k in e.keywords:
             kws.append((k.arg, ev(c, k.value)))
-        if f[0] == "closure" and not args and not kws:
-            return call_closure(c, f)
+        if f[0] == "closure" and not kws and simple_params(f[2], len(args)) and not any(isinstance(a, tuple) and a and a[0] == "star" for a in args):
+            return call_closure(c, f, args)
         return c.op(("call",), f, tuple(args), tuple(kws))
     if isinstance(e, ast.Attribute):
         v = ev(c, e.value)
@@ -349,16 +349,24 @@ def ev_slice(c, s):
     return ev(c, s)
 
 
-def call_closure(c, f):
+def simple_params(node, nargs):
+    """The closure takes exactly `nargs` plain positional parameters whose names are compiler temporaries."""
+    a = node.args
+    return not (a.vararg or a.kwarg or a.kwonlyargs or a.posonlyargs or a.defaults) and len(a.args) == nargs \
+        and all(is_temp(x.arg) for x in a.args)
+
+
+def call_closure(c, f, args=()):
     node = f[2]
     if isinstance(node, ast.Lambda):
         if node.args.args or node.args.vararg or node.args.kwarg or node.args.kwonlyargs or node.args.posonlyargs:
             raise Unsupported("call of lambda with parameters")
         return ev(c, node.body)
     is_gen = any(isinstance(n, (ast.Yield, ast.YieldFrom)) for n in ast.walk(ast.Module(body=node.body, type_ignores=[])))
+    bound = dict(zip([x.arg for x in node.args.args], args))
     if is_gen:
-        return make_gen(c, lambda: run_function(c, node))
-    return run_function(c, node)
+        return make_gen(c, lambda: run_function(c, node, bound))
+    return run_function(c, node, bound)
 
 
 def make_gen(c, thunk):
@@ -379,9 +387,10 @@ def force(c, v):
     return v
 
 
-def run_function(c, node):
+def run_function(c, node, bound=None):
     saved = c.frame
     c.frame = Frame(saved)
+    c.frame.vars.update(bound or {})
     for s in node.body:
         if isinstance(s, (ast.Nonlocal, ast.Global)):
             c.frame.outer.update(n for n in s.names if is_temp(n))
@@ -406,7 +415,8 @@ def ev_comp(c, e):
     """Comprehensions: CPython's semantics as nested loops in a scope of their own."""
     gens = e.generators
     kind = type(e).__name__
-    if len(gens) == 1 and not gens[0].ifs and isinstance(gens[0].iter, ast.Call) and not gens[0].iter.args \
+    if len(gens) == 1 and not gens[0].ifs and isinstance(gens[0].iter, ast.Call) and not gens[0].iter.keywords \
+            and not any(isinstance(a, ast.Starred) for a in gens[0].iter.args) \
             and isinstance(gens[0].iter.func, ast.Name) and is_temp(gens[0].iter.func.id) \
             and isinstance(gens[0].target, (ast.Name, ast.Tuple)) \
             and all(isinstance(n, ast.Name) and is_temp(n.id) for n in ast.walk(gens[0].target) if isinstance(n, ast.Name)):
@@ -416,8 +426,10 @@ def ev_comp(c, e):
             clo = c.frame.lookup(gens[0].iter.func.id)
         except KeyError:
             clo = None
-        if clo is not None and clo[0] == "closure" and not isinstance(clo[2], ast.Lambda):
-            run_function(c, clo[2])          # the generator is consumed on the spot: its body runs to exhaustion here
+        if clo is not None and clo[0] == "closure" and not isinstance(clo[2], ast.Lambda) and simple_params(clo[2], len(gens[0].iter.args)):
+            args = [ev(c, a) for a in gens[0].iter.args]      # evaluated here, in the enclosing scope, before the body runs
+            run_function(c, clo[2], dict(zip([x.arg for x in clo[2].args.args], args)))
+            # the generator is consumed on the spot: its body runs to exhaustion here
             return ("collect", kind)
 
     def run_body():
